@@ -124,8 +124,43 @@ func checkC11(r *Result) {
 			}
 		}
 	}
+	// every success return of SlashAndJailReporter has flagged, escrowed and jailed (for every category)
+	if sj := need("(x/dispute/keeper.Keeper).SlashAndJailReporter"); sj != nil {
+		ps := AnalyzePaths(sj, []Atom{
+			{Name: "flagged", Event: P.CallEvent(func(c *CallSite) bool { return strings.HasSuffix(c.Callee, "OracleKeeper.FlagAggregateReport") }, T)},
+			{Name: "escrowed", Event: P.CallEvent(func(c *CallSite) bool { return strings.HasSuffix(c.Callee, "ReporterKeeper.EscrowReporterStake") }, T)},
+			{Name: "jailed", Event: P.CallEvent(func(c *CallSite) bool { return c.Callee == "(x/dispute/keeper.Keeper).JailReporter" }, T)},
+		})
+		okAll, n := true, 0
+		for _, ret := range SuccessReturns(sj) {
+			n++
+			if bad := ps.Require(ret, func(v map[string]bool) bool { return v["flagged"] && v["escrowed"] && v["jailed"] }); len(bad) > 0 {
+				okAll = false
+			}
+		}
+		r.check(okAll && n > 0, "JAIL", "(x/dispute/keeper.Keeper).SlashAndJailReporter # every success return has flagged the aggregate, escrowed the stake and jailed the reporter", P.Pos(sj.Pos()), fmt.Sprintf("%d success returns", n))
+	}
 	// ---- JAIL
 	if dj := need("(x/dispute/keeper.Keeper).JailReporter"); dj != nil {
+		{
+			ps := AnalyzePaths(dj, []Atom{
+				{Name: "forever", Cond: func(rel *Term) (bool, bool) {
+					if rel.Op == "==" && len(rel.Args) == 2 && rel.Args[0].Op == "param:3:uint64" && rel.Args[1].Op == "const:9223372036854775807" {
+						return true, true
+					}
+					return false, false
+				}},
+				{Name: "jailed", Event: P.CallEvent(func(c *CallSite) bool { return strings.HasSuffix(c.Callee, "ReporterKeeper.JailReporter") }, T)},
+			})
+			okAll, n := true, 0
+			for _, ret := range SuccessReturns(dj) {
+				n++
+				if bad := ps.Require(ret, func(v map[string]bool) bool { return v["jailed"] || v["forever"] }); len(bad) > 0 {
+					okAll = false
+				}
+			}
+			r.check(okAll && n > 0, "JAIL", "(x/dispute/keeper.Keeper).JailReporter # every success return has jailed the reporter, except for the 100% category", P.Pos(dj.Pos()), fmt.Sprintf("%d success returns", n))
+		}
 		ps := AnalyzePaths(dj, []Atom{{Name: "forever", Cond: func(rel *Term) (bool, bool) {
 			if rel.Op == "==" && len(rel.Args) == 2 && rel.Args[0].Op == "param:3:uint64" && rel.Args[1].Op == "const:9223372036854775807" {
 				return true, true
@@ -141,6 +176,7 @@ func checkC11(r *Result) {
 	}
 	if rj := need("(x/reporter/keeper.Keeper).JailReporter"); rj != nil {
 		okUntil, okFlag := false, false
+		nUntil, badUntil := 0, 0
 		for _, b := range rj.Blocks {
 			for _, in := range b.Instrs {
 				st, ok := in.(*ssa.Store)
@@ -154,7 +190,13 @@ func checkC11(r *Result) {
 				switch fieldName(fa.X.Type(), fa.Field) {
 				case "x/reporter/types.OracleReporter.JailedUntil":
 					t := tm.Of(st.Val)
-					okUntil = t.Op == "call:(time.Time).Add" && len(t.Args) == 2 && t.Args[0].Has("call:(github.com/cosmos/cosmos-sdk/types.Context).BlockTime") && t.Args[1].Op == "*" && t.Args[1].Contains("const:1000000000") && t.Args[1].Has("param:3:uint64")
+					one := t.Op == "call:(time.Time).Add" && len(t.Args) == 2 && t.Args[0].Op == "call:(github.com/cosmos/cosmos-sdk/types.Context).BlockTime" && t.Args[1].Op == "*" && t.Args[1].Contains("const:1000000000") && t.Args[1].Has("param:3:uint64")
+					nUntil++
+					if !one {
+						badUntil++
+					}
+					// every store of the term starts it at the block time of the jailing (not at an older term)
+					okUntil = nUntil > 0 && badUntil == 0
 				case "x/reporter/types.OracleReporter.Jailed":
 					okFlag = storesConstToField(in, "x/reporter/types.OracleReporter.Jailed", "true")
 				}
